@@ -13,7 +13,7 @@ check("C18", "proof",
       "DESIGN.md section 3 (E7), section 4 (C18)")
 
 check("C12", "other",
-      "Necessary condition decided statically: no loop over a Go map / gonum iterator and no entropy source reachable from TransformModuleFilesToModel (listener callbacks included) can influence the result or the error list - every such loop is classified by the effects of its body into order-insensitive forms or reported; no package-level state is written on that path.",
+      "Necessary condition decided statically: no loop over a Go map / gonum iterator and no entropy source reachable from TransformModuleFilesToModel (listener callbacks included) can influence the result or the error list - every such loop is classified by the effects of its body into order-insensitive forms or reported; no package-level state is written on that path; conflict tests use lists rebuilt from the live object or accumulated on accept (a stale list lets the last file win).",
       "Sufficient-condition prover for schedule independence; permutation invariance of success (a value argument) is not decided. Trusted: Go slices iterate in index order; enumerated order/entropy sources are complete.",
       "AST effect classification of every map-range / iterator loop in call-graph-reachable code (go/packages + go/ssa + VTA), comparator totality check, SSA taint from entropy sources, package-state write scan",
       "DESIGN.md section 3 (E3, E2), section 4 (C12)")
@@ -25,7 +25,7 @@ check("C13", "other",
       "DESIGN.md section 3 (E2), section 4 (C13)")
 
 check("C14", "other",
-      "Necessary conditions decided statically on the DSL printer: output order never comes from a map (collect-then-sort with a comparator total on the names, no later unstable partial re-sort); the include-source-information option only flows into the trailing-comment helper, which returns \"\" when the option is off, whose result starts with ' #' and is the last verb on its output line at every use; no package-level state.",
+      "Necessary conditions decided statically on the DSL printer: output order never comes from a map (collect-then-sort with a comparator total on the names, no later unstable partial re-sort); on every path that sorts the type definitions (modular models) what is rendered afterwards are the elements of that sorted list; the include-source-information option only flows into the trailing-comment helper, which returns \"\" when the option is off, whose result starts with ' #' and is the last verb on its output line at every use; no package-level state.",
       "Byte identity across JSON encodings is delegated to protojson; the exact documented order (module, file, name) is not decided beyond totality/determinism of the comparator.",
       "AST effect classification of map-range loops + comparator totality; SSA def-use of the option value; CFG evaluation of the helper under option=false; constant-format verb position analysis",
       "DESIGN.md section 3 (E3, E5), section 4 (C14)")
@@ -69,10 +69,10 @@ check("C09", "other",
       "DESIGN.md section 3 (E8 R8.4, E5), section 4 (C09)")
 
 check("C15", "other",
-      "Decided by dominance and def-use on TransformModFile: every accepted value is V = ReplaceAll(QueryUnescape(node.Value), backslash, slash) (decode first, normalisation outermost); the accept site is dominated by decode-error==nil, string tag, !Contains(V,'../'), !HasPrefix(V,'/'), HasSuffix(V,'.fga') with operand identity on V; positions are 0 or Line-1/Column-1 of the one node whose value is reported; schema stored only under Value=='1.2'; the manifest text reaches the YAML decoder unmodified; every structured path through the contents loop yields exactly one error or one accept; success only with an empty accumulator. A fixed string lemma turns the guards into the stated safety of every returned path.",
-      "Trusted: yaml.v3 position semantics (one-based, first character of the value); url.QueryUnescape / strings.* as documented. Which YAML documents the decoder accepts is not decided.",
-      "SSA dominator + def-use analysis with operand identity; structured path enumeration of the loop body; constant/shape analysis of position expressions",
-      "DESIGN.md section 3 (E6), section 4 (C15)")
+      "Decided on the enumerated paths of TransformModFile (SSA; unexported helpers, closures and package-level dispatch tables followed; a branch is taken one way only when its condition is a constant on the path): on every path on which an entry is appended to the contents, the stored value is V = ReplaceAll(QueryUnescape(node.Value), backslash, slash) (decode first, normalisation outermost) and the conditions taken before establish decode-error==nil, string tag, !Contains(V,'../'), !HasPrefix(V,'/'), HasSuffix(V,'.fga') on that very V; positions are 0 or Line-1/Column-1 of the one node whose value is reported or quoted; the schema is stored only on paths that compared the stored value equal to '1.2'; the manifest text reaches the YAML decoder unmodified; every path through one iteration of the contents loop reports exactly one error or accepts exactly once; no path that reports an error ends in the successful return. A fixed string lemma turns the guards into the stated safety of every returned path.",
+      "Trusted: yaml.v3 position semantics (one-based, first character of the value); url.QueryUnescape / strings.* as documented. Which YAML documents the decoder accepts is not decided. Entry checks expressed as a table of predicates scanned with slices.IndexFunc are not unrolled (reported, DESIGN 11.7).",
+      "path enumeration over SSA with interprocedural value tracing and path-sensitive constant propagation (no execution, no solver); per-path normalised condition facts with operand identity; constant/shape analysis of position expressions",
+      "DESIGN.md section 3 (E6), section 4 (C15), section 11.2 (path explorer)")
 
 check("C16", "other",
       "Structural necessary conditions decided statically: the ParseDSL pre-pass keeps line structure and prefixes (split on newline, one cleaned line per input line, only prefix-preserving operations, comment cut at the first ' #', join + trailing-newline trim only); SyntaxError stores line-1 and the column unconditionally and records on every path; listener-raised errors pass the start token of a name rule of the grammar; merge errors pair file, lines and the finder matching the conflict kind on the same symbol; line finders reject continuation by every name character of the lexer grammar (abstract evaluation over all bytes) and must be scoped.",
@@ -87,15 +87,15 @@ check("C01", "other",
       "DESIGN.md section 3 (E1, E5), section 4 (C01)")
 
 check("C02", "other",
-      "Structural necessary conditions decided statically on the printer: relation text is returned only under occurrences()==0 or occurrences()==1 && isFirstPosition(own rewrite), every direct-assignment branch counts on one shared validator; recursion targets of the position predicate; all printer failures are the documented constructors; hoisting returns its argument or a fresh x[p]++x[:p]++x[p+1:]; operand loops complete; every part of a restriction is considered on every path; enum/literal tables in both directions; IsRelationAssignable handles all operator variants; the printer does not write its input.",
+      "Structural necessary conditions decided statically on the printer: relation text is returned only under occurrences()==0 or occurrences()==1 && isFirstPosition(own rewrite), every direct-assignment branch counts on one shared validator; recursion targets of the position predicate; all printer failures are the documented constructors; hoisting returns its argument or a fresh x[p]++x[:p]++x[p+1:]; operand loops complete; every part of a restriction is considered on every path; enum/literal tables in both directions; IsRelationAssignable handles all operator variants; a condition's expression is printed as stored; the printer does not write its input.",
       "Correctness of isFirstPosition as a predicate over all trees and re-parse equality are NOT decided. One known finding (TYPE_NAME_ANY has no DSL spelling) is listed in known-findings.json.",
       "SSA dominator/guard-shape analysis; slice-construction shape analysis; error-origin slicing; may-point-to purity; grammar literal tables",
       "DESIGN.md section 3 (E1, E5), section 4 (C02)")
 
 check("C03", "other",
-      "Structural necessary conditions decided statically: the pre-pass only blanks full-line comments, cuts at the first ' #', trims trailing blanks and keeps one line per line; the listener overrides real interface methods, reads every grammar label and consults every operator alternative; operand lists are never sub-slices sharing storage with a list in use; the rewrite stack is reset/pushed/popped exactly as the parentheses of the grammar; the embedded lexer/parser automata accept the identifier, whitespace, line-end and keyword-as-name shapes the property enumerates (membership evaluated on the automaton).",
+      "Structural necessary conditions decided statically: the pre-pass only blanks full-line comments, cuts at the first ' #', trims trailing blanks and keeps one line per line; the listener overrides real interface methods, reads every grammar label and consults every operator alternative; operand lists are never sub-slices sharing storage with a list in use; the rewrite stack is reset/pushed/popped exactly as the parentheses of the grammar; ParseExpression builds an operator node only on paths on which at least two operands are established (a single operand is handed back as it is); the embedded lexer/parser automata accept the identifier, whitespace, line-end and keyword-as-name shapes the property enumerates (membership evaluated on the automaton).",
       "That grammar plus callbacks compute the intended tree for every layout is NOT decided (needs running the parser).",
-      "typed-AST shape analysis of the pre-pass; go/types method-set comparison; SSA slice-origin classification of operand-list stores; automaton membership on the decoded ATN",
+      "SSA shape analysis of the pre-pass; go/types method-set comparison; SSA slice-origin classification of operand-list stores; path enumeration of ParseExpression; automaton membership on the decoded ATN",
       "DESIGN.md section 3 (E9, E1, E8), section 4 (C03)")
 
 check("C07", "other",
@@ -105,7 +105,7 @@ check("C07", "other",
       "DESIGN.md section 3 (E4, E5, E9), section 4 (C07)")
 
 check("C08", "other",
-      "Panic freedom of the repository's own code in packages transformer, utils, validation, errors: every may-panic SSA instruction (nil dereference, nil-map write, index/slice bounds, unchecked assertion, nil interface/function call, explicit panic) reachable from the public entry points including listener callbacks is enumerated and discharged by a positive rule (freshness/flow, parameter non-nil at all call sites, dominating nil test, library contracts, length/index facts, grammar-driven typestate of listener fields, balanced rewrite stack, container-element invariants); graph package: no possibly-nil pointer is converted to an interface (typed nil). Lexer: no configuration inside a recursive lexer rule is re-entered by one word with two different call-stack growths on pre-pass output (necessary for the quadratic bound). Syntax errors surface: collecting listener attached to lexer and parser, records on every path, any recorded error voids the result, decoder errors propagate on every path.",
+      "Panic freedom of the repository's own code in packages transformer, utils, validation, errors: every may-panic SSA instruction (nil dereference, nil-map write, index/slice bounds, unchecked assertion, nil interface/function call, explicit panic) reachable from the public entry points including listener callbacks is enumerated and discharged by a positive rule (freshness/flow, parameter non-nil at all call sites, dominating nil test, library contracts, length/index facts, grammar-driven typestate of listener fields, balanced rewrite stack, container-element invariants); graph package: no possibly-nil pointer is converted to an interface (typed nil). Lexer: no configuration inside a recursive lexer rule is re-entered by one word with two different call-stack growths on pre-pass output (necessary for the quadratic bound). Syntax errors surface: collecting listener attached to lexer and parser, records on every path, any recorded error voids the result, decoder errors propagate on every path. Recursive tree walkers never hand the same unchanged node to the recursion twice on one path (no doubling of work per nesting level).",
       "NOT decided: nil dereferences/bounds inside the graph package beyond the typed-nil rule; termination and complexity in general (ANTLR prediction, regexp, yaml); panics inside third-party runtimes; well-foundedness of recursion. Known finding K2: form-feed runs make lexing cubic.",
       "SSA obligation enumeration with dominator/def-use discharge rules and call-site fixpoint; rule-invocation dominators on the decoded parser ATN for typestate; lockstep pair exploration of lexer ATN configurations; path-sensitive error propagation",
       "DESIGN.md section 3 (E4, E8 R8.6, E5), section 4 (C08)")
